@@ -171,6 +171,16 @@ def flushClient (s : State) (c : Nat) : State :=
     | some cl1 => if cl1.closing ∧ cl1.queue.isEmpty then closeClient s1 c else s1
     | none => s1
 
+/-- what `eventloop.sread` does with the owner of a fragment whose reply has been merged: nothing if the
+    client is gone, close it if its queue is (unexpectedly) empty, otherwise flush -/
+def deliver (s : State) (owner : Nat) : State :=
+  match s.client owner with
+  | some cl =>
+    if !cl.opened then s
+    else if cl.queue.isEmpty then closeClient s owner
+    else flushClient s owner
+  | none => s
+
 /-! ### backend connections and pools -/
 
 def handshake (S : Strs) (cfg : Cfg) (isSlave : Bool) : Bytes × Nat :=
@@ -264,17 +274,30 @@ def routeAdmissible (T : Tables) (cfg : Cfg) (s : State) (ty : Nat) (rs : RSet) 
 def failReq (m : MMsg) (e : Bytes) : MMsg :=
   allDone { m with err := e, fragDone := m.frags.length, rspBody := e, done := true }
 
-/-- a locally produced reply: written at once when nothing is queued, otherwise queued as a completed request -/
-def localReply (s : State) (c : Nat) (num : Nat) (m : MMsg) (out : Bytes) : State :=
+/-- a locally produced reply for the request just decoded on `c` (it becomes that connection's
+    next request number): written at once when nothing is queued, otherwise queued as a completed
+    request so that it keeps its place in the pipeline -/
+def answerLocal (s : State) (c : Nat) (m : MMsg) (out : Bytes) : State :=
   match s.client c with
   | none => s
   | some cl =>
+    let num := cl.decoded
     if cl.queue.isEmpty then
-      s.updClient c (fun cl => { cl with out := cl.out ++ out, log := cl.log ++ [(num, out)] })
+      s.updClient c (fun cl => { cl with decoded := cl.decoded + 1, out := cl.out ++ out, log := cl.log ++ [(num, out)] })
     else
       let id := s.msgs.length
       let r : Req := { owner := c, num := num, m := { m with rspBody := out, done := true } }
-      { s with msgs := s.msgs ++ [r] }.updClient c (fun cl => { cl with queue := cl.queue ++ [id] })
+      { s with msgs := s.msgs ++ [r] }.updClient c (fun cl => { cl with decoded := cl.decoded + 1, queue := cl.queue ++ [id] })
+
+/-- a forwarded request: it becomes the connection's next request number, is stored (not done) and
+    queued behind the earlier ones; returns its id -/
+def acceptReq (s : State) (c : Nat) (m : MMsg) : State × Nat :=
+  let id := s.msgs.length
+  match s.client c with
+  | none => (s, id)
+  | some cl =>
+    let r : Req := { owner := c, num := cl.decoded, m := { m with done := false } }
+    ({ s with msgs := s.msgs ++ [r] }.updClient c (fun cl => { cl with decoded := cl.decoded + 1, queue := cl.queue ++ [id] }), id)
 
 /-- first pass of `OnCReact`'s routing loop: resolve a connection for each visited slot.
     Returns the state (dials happened), the targets so far, and an error reply if the request is rejected. -/
@@ -293,41 +316,44 @@ def resolve (T : Tables) (S : Strs) (cfg : Cfg) (ty : Nat) :
           let (s1, b) := poolGet S cfg s p
           resolve T S cfg ty s1 rest (acc ++ [(slot, b)])
 
+/-- the requests `OnCReact` answers itself: the reply, and whether the connection is closed afterwards (QUIT) -/
+def localAnswer (T : Tables) (S : Strs) (cfg : Cfg) (cm : CMsg) : Option (Bytes × Bool) :=
+  let ty := cm.type
+  if ty ≤ T.cUnknown ∨ ty ≥ T.cSentinel then some (S.errUnknownCommand, false)
+  else if ty = T.cTooLarge then some (S.errTooLargeReq, false)
+  else if ty = T.cWrongArgs then some (S.errWrongArgs, false)
+  else if ty = T.cPing then some (S.pong, false)
+  else if ty = T.cQuit then some (S.ok, true)
+  else if ty = T.cAuth then
+    if cfg.passwd.isEmpty then some (S.errNeedNtPassword, false)
+    else if cfg.passwd ≠ cm.key then some (S.errInvalidPassword, false)
+    else some (S.ok, false)
+  else none
+
+/-- the routing part of `OnCReact`: resolve a connection for every fragment, then queue them all -/
+def forward (T : Tables) (S : Strs) (cfg : Cfg) (s : State) (c : Nat) (cm : CMsg) (ch : ReqChoice) : State :=
+  let m := ofCMsg cm
+  -- the visited slots must be distinct slots of this request; all of them unless the request is rejected
+  let slots := m.frags.map (·.slot)
+  let visited := ch.visit.map (·.1)
+  if !(visited.all (slots.contains ·)) ∨ !visited.Nodup then s.fail "badChoice" else
+  match resolve T S cfg cm.type s ch.visit [] with
+  | (s1, _, some e) => answerLocal s1 c m e
+  | (s1, targets, none) =>
+    if s1.flag.isSome then s1
+    else if targets.length ≠ slots.length then s1.fail "badChoice"
+    else
+      -- the fragments are kept in visiting order
+      let frags := targets.filterMap (fun t => getFrag m t.1)
+      match acceptReq s1 c { m with frags := frags } with
+      | (s2, id) => targets.foldl (fun st t => enqueueOut st t.2 (.frag id t.1)) s2
+
 /-- `OnCReact` + the tail of the `cread` iteration for one decoded request.
     Returns the new state and whether the connection must be closed (QUIT). -/
 def onRequest (T : Tables) (S : Strs) (cfg : Cfg) (s : State) (c : Nat) (cm : CMsg) (ch : ReqChoice) : State × Bool :=
-  let num := (s.client c).map (·.decoded) |>.getD 0
-  let s := s.updClient c (fun cl => { cl with decoded := cl.decoded + 1 })
-  let m := ofCMsg cm
-  let ty := cm.type
-  if ty ≤ T.cUnknown ∨ ty ≥ T.cSentinel then (localReply s c num m S.errUnknownCommand, false)
-  else if ty = T.cTooLarge then (localReply s c num m S.errTooLargeReq, false)
-  else if ty = T.cWrongArgs then (localReply s c num m S.errWrongArgs, false)
-  else if ty = T.cPing then (localReply s c num m S.pong, false)
-  else if ty = T.cQuit then (localReply s c num m S.ok, true)
-  else if ty = T.cAuth then
-    if cfg.passwd.isEmpty then (localReply s c num m S.errNeedNtPassword, false)
-    else if cfg.passwd ≠ cm.key then (localReply s c num m S.errInvalidPassword, false)
-    else (localReply s c num m S.ok, false)
-  else
-    -- the visited slots must be distinct slots of this request; all of them unless the request is rejected
-    let slots := m.frags.map (·.slot)
-    let visited := ch.visit.map (·.1)
-    if !(visited.all (slots.contains ·)) ∨ !visited.Nodup then (s.fail "badChoice", false) else
-    let (s1, targets, rej) := resolve T S cfg ty s ch.visit []
-    match rej with
-    | some e => (localReply s1 c num m e, false)
-    | none =>
-      if s1.flag.isSome then (s1, false)
-      else if targets.length ≠ slots.length then (s1.fail "badChoice", false)
-      else
-        let id := s1.msgs.length
-        -- the fragments are kept in visiting order
-        let frags := targets.filterMap (fun t => getFrag m t.1)
-        let r : Req := { owner := c, num := num, m := { m with frags := frags } }
-        let s2 := { s1 with msgs := s1.msgs ++ [r] }
-        let s3 := targets.foldl (fun st t => enqueueOut st t.2 (.frag id t.1)) s2
-        (s3.updClient c (fun cl => { cl with queue := cl.queue ++ [id] }), false)
+  match localAnswer T S cfg cm with
+  | some (out, quit) => (answerLocal s c (ofCMsg cm) out, quit)
+  | none => (forward T S cfg s c cm ch, false)
 
 /-- the loop of `eventloop.cread` over the bytes in view -/
 def creadLoop (T : Tables) (S : Strs) (cfg : Cfg) (slotFn : Bytes → Nat) :
@@ -339,10 +365,8 @@ def creadLoop (T : Tables) (S : Strs) (cfg : Cfg) (slotFn : Bytes → Nat) :
     | .panic => s.fail "panic"
     | .incomplete => s.updClient c (fun cl => { cl with leftover := view })
     | .ok cm n =>
-      let needsChoice := !(cm.type ≤ T.cUnknown ∨ cm.type ≥ T.cSentinel ∨ cm.type = T.cTooLarge ∨ cm.type = T.cWrongArgs
-                           ∨ cm.type = T.cPing ∨ cm.type = T.cQuit ∨ cm.type = T.cAuth)
       let (ch, chs') : ReqChoice × List ReqChoice :=
-        if needsChoice then (chs.head?.getD { visit := [] }, chs.tail) else ({ visit := [] }, chs)
+        if (localAnswer T S cfg cm).isNone then (chs.head?.getD { visit := [] }, chs.tail) else ({ visit := [] }, chs)
       let (s1, quit) := onRequest T S cfg s c cm ch
       let rest := view.drop n
       if s1.flag.isSome then s1
@@ -387,6 +411,37 @@ def onMoved (S : Strs) (cfg : Cfg) (s : State) (mi slot : Nat) (isAsk : Bool) (a
         let s2 := if isAsk then enqueueOut s1 b .asking else s1
         enqueueOut s2 b (.frag mi slot)
 
+/-- the handshake prelude of `conn.sread`: swallow the `+OK` replies first. `none` = wait for more bytes -/
+def initPrelude (s : State) (b : Nat) (x : Backend) (view : Bytes) : Option (State × Bytes) :=
+  if x.initializing then
+    match initializingDecode x.initSteps view with
+    | .incomplete => none
+    | .done n => some (s.updBackend b (fun x => { x with initializing := false }), view.drop n)
+    | .fallThrough => some (s, view)
+    | .invalidInit => some (s.fail "stuck", view)
+  else some (s, view)
+
+/-- one framed reply (type `rtype`, bytes `body`) for the fragment `(mi, slot)`: `conn.sread` followed by the
+    corresponding branch of `eventloop.sread`. Returns the new state and whether the read loop goes on. -/
+def onFragReply (T : Tables) (S : Strs) (cfg : Cfg) (slotFn : Bytes → Nat) (s : State) (mi slot rtype : Nat)
+    (body : Bytes) : State × Bool :=
+  match s.req mi with
+  | none => (s.fail "panic", false)
+  | some r =>
+    match onReply T S.merge slotFn cfg.limit r.m slot rtype body with
+    | (m', sig) =>
+      let s1 := s.updReq mi (fun r => { r with m := m' })
+      match sig with
+      | .panic => (s1.fail "panic", false)
+      | .dropped => (s1, true)
+      | .waiting => (s1, true)
+      | .redirect =>
+        let s2 := onMoved S cfg s1 mi slot (rtype = T.rAsk) (parseMovedOrAsk T rtype body)
+        (s2, !s2.flag.isSome)
+      | .ready =>
+        if rtype = T.rNeedNtAuth ∨ rtype = T.rNeedAuth ∨ rtype = T.rAuthFailed then (s1.fail "shutdown", false)
+        else (deliver s1 r.owner, true)
+
 /-- the loop of `eventloop.sread` over the bytes in view -/
 def sreadLoop (T : Tables) (S : Strs) (cfg : Cfg) (slotFn : Bytes → Nat) :
     Nat → State → Nat → Bytes → State
@@ -396,16 +451,7 @@ def sreadLoop (T : Tables) (S : Strs) (cfg : Cfg) (slotFn : Bytes → Nat) :
     | none => s
     | some x =>
       if !x.opened then s else
-      -- handshake replies first
-      let init : Option (State × Bytes) :=
-        if x.initializing then
-          match initializingDecode x.initSteps view with
-          | .incomplete => none
-          | .done n => some (s.updBackend b (fun x => { x with initializing := false }), view.drop n)
-          | .fallThrough => some (s, view)
-          | .invalidInit => some (s.fail "stuck", view)
-        else some (s, view)
-      match init with
+      match initPrelude s b x view with
       | none => s.updBackend b (fun x => { x with leftover := view })
       | some (s, view) =>
         if s.flag.isSome then s else
@@ -413,8 +459,7 @@ def sreadLoop (T : Tables) (S : Strs) (cfg : Cfg) (slotFn : Bytes → Nat) :
         | .incomplete => s.updBackend b (fun x => { x with leftover := view })
         | .stuck => s.fail "stuck"
         | .ok rtype n =>
-          let x := (s.backend b).getD x
-          match x.inQ with
+          match ((s.backend b).getD x).inQ with
           | [] => s.fail "stuck"                       -- unsolicited reply: ErrUnKnown, the real loop spins
           | f :: inQ' =>
             let body := view.take n
@@ -426,28 +471,9 @@ def sreadLoop (T : Tables) (S : Strs) (cfg : Cfg) (slotFn : Bytes → Nat) :
               if rtype = T.rNeedNtAuth ∨ rtype = T.rNeedAuth ∨ rtype = T.rAuthFailed then s.fail "shutdown"
               else sreadLoop T S cfg slotFn fuel s b rest     -- handed to the refresh goroutine
             | .frag mi slot =>
-              match s.req mi with
-              | none => s.fail "panic"
-              | some r =>
-                let (m', sig) := onReply T S.merge slotFn cfg.limit r.m slot rtype body
-                let s := s.updReq mi (fun r => { r with m := m' })
-                match sig with
-                | .panic => s.fail "panic"
-                | .dropped => sreadLoop T S cfg slotFn fuel s b rest
-                | .waiting => sreadLoop T S cfg slotFn fuel s b rest
-                | .redirect =>
-                  let s := onMoved S cfg s mi slot (rtype = T.rAsk) (parseMovedOrAsk T rtype body)
-                  if s.flag.isSome then s else sreadLoop T S cfg slotFn fuel s b rest
-                | .ready =>
-                  if rtype = T.rNeedNtAuth ∨ rtype = T.rNeedAuth ∨ rtype = T.rAuthFailed then s.fail "shutdown"
-                  else
-                    let s := match s.client r.owner with
-                      | some cl =>
-                        if !cl.opened then s
-                        else if cl.queue.isEmpty then closeClient s r.owner
-                        else flushClient s r.owner
-                      | none => s
-                    sreadLoop T S cfg slotFn fuel s b rest
+              match onFragReply T S cfg slotFn s mi slot rtype body with
+              | (s', true) => sreadLoop T S cfg slotFn fuel s' b rest
+              | (s', false) => s'
 
 /-- a readable event on a backend connection -/
 def backendBytes (T : Tables) (S : Strs) (cfg : Cfg) (slotFn : Bytes → Nat) (s : State) (b : Nat) (chunk : Bytes) : State :=
@@ -526,6 +552,11 @@ def step (T : Tables) (S : Strs) (cfg : Cfg) (slotFn : Bytes → Nat) (s : State
   | .backendBytes b chunk => backendBytes T S cfg slotFn s b chunk
   | .backendClose b => backendClose S s b
   | .expire => expire S s
+
+/-- start-up: the configured pools and slot table, every pool connected once (RedisPreconnect), no client yet -/
+def init (S : Strs) (cfg : Cfg) (pools : List (Bytes × Bool)) (table : List (Nat × Nat × RSet)) : State :=
+  let s0 : State := { pools := pools.map (fun p => { addr := p.1, isSlave := p.2 }), table := table }
+  (List.range pools.length).foldl (fun s p => (poolGet S cfg s p).1) s0
 
 def run (T : Tables) (S : Strs) (cfg : Cfg) (slotFn : Bytes → Nat) (s : State) (es : List Event) : State :=
   es.foldl (step T S cfg slotFn) s
